@@ -9,7 +9,7 @@ Property theorems only; the proofs' machinery is in `Jsonapi/Proofs/ResourceLemm
 wrapper) and `EqualLemmas.lean` (Equal).
 
 Definitions used in the statements (all in the Proofs files, repeated here for the reader):
-* `Hist := List (GoString × GoVal)`, `HistOk t h := ∀ p ∈ h, Spec.setOk t p.1 p.2 = true`;
+* `Hist := List (GoString × GoVal)`, `SetHistOk t h := ∀ p ∈ h, Spec.setOk t p.1 p.2 = true`;
 * `Typ.fieldKeys t := t.attrs.keys ++ t.rels.keys`;
 * `Spec.structable t` (Bool): the type name is not "", "attr", "rel" or "rel,…", and no
   relationship's target type / inverse name contains a comma — what `Check`/`Wrap` need to
@@ -27,7 +27,7 @@ open GoMap
 /-! ### 1. SoftResource refines the abstract resource -/
 
 theorem C17_soft_refines (t : Typ) (ht : TypWF t) (hn : Spec.namesOk t = true) (h : Hist)
-    (hok : HistOk t h) :
+    (hok : SetHistOk t h) :
     let s := h.foldl (fun s p => s.set p.1 p.2) ({ typ := t, id := [], data := [] } : Soft)
     (∀ f ∈ t.attrs.keys ++ t.rels.keys, Spec.canon (s.get f) = Spec.specGet t h f) ∧
     s.get idName = .val .string (.s (Spec.specId h)) ∧ s.typ = t := by
@@ -47,7 +47,7 @@ Full version: no sortedness assumption on `t.attrs` / `t.rels` (only membership 
 sorted declaration is used). Added hypothesis: `Spec.structable t`. -/
 
 theorem C17_wrapped_refines (t : Typ) (ht : TypWF t) (hn : Spec.namesOk t = true)
-    (hs : Spec.structable t = true) (h : Hist) (hok : HistOk t h) :
+    (hs : Spec.structable t = true) (h : Hist) (hok : SetHistOk t h) :
     ∃ w0 w, wrap (declOfTyp t) (Wrapped.zeroVals (declOfTyp t)) = .ok w0 ∧
       runSets w0 h = .ok w ∧
       (∀ f ∈ t.attrs.keys ++ t.rels.keys, ∃ v, w.get f = .ok v ∧ Spec.canon v = Spec.specGet t h f) ∧
@@ -60,7 +60,7 @@ theorem C17_wrapped_refines (t : Typ) (ht : TypWF t) (hn : Spec.namesOk t = true
 /-! ### 3. Indistinguishable through the Resource interface -/
 
 theorem C17_indistinguishable (t : Typ) (ht : TypWF t) (hn : Spec.namesOk t = true)
-    (hs : Spec.structable t = true) (h : Hist) (hok : HistOk t h) :
+    (hs : Spec.structable t = true) (h : Hist) (hok : SetHistOk t h) :
     let s := h.foldl (fun s p => s.set p.1 p.2) ({ typ := t, id := [], data := [] } : Soft)
     ∃ w0 w, wrap (declOfTyp t) (Wrapped.zeroVals (declOfTyp t)) = .ok w0 ∧
       runSets w0 h = .ok w ∧
@@ -292,7 +292,7 @@ example :
 theorem C17_exT_wf : TypWF C17_exT :=
   ⟨by decide, by decide, by decide, by decide, by decide⟩
 
-theorem C17_exH_ok : HistOk C17_exT C17_exH := by unfold HistOk; decide
+theorem C17_exH_ok : SetHistOk C17_exT C17_exH := by unfold SetHistOk; decide
 
 /-- The theorems apply to the example. -/
 example := C17_indistinguishable C17_exT C17_exT_wf (by decide) (by decide) C17_exH C17_exH_ok
